@@ -137,6 +137,10 @@ def call_case(args):
     return case, res
 
 
+def call_chunk(tasks):
+    return [call_case(t) for t in tasks]
+
+
 # ----------------------------------------------------------------------------------------------
 # known findings
 # ----------------------------------------------------------------------------------------------
@@ -249,20 +253,24 @@ class Run:
             part, {"mode": mode, "cases": 0, "evaluations": 0, "nontrivial": 0, "violations": 0}
         )
         out = []
-        it = pool.imap_unordered(call_case, [(fn, c, limit) for c in cases], chunksize)
-        for _ in range(n):
+        # own chunking (imap_unordered with chunksize > 1 returns a generator without timeouts)
+        tasks = [(fn, c, limit) for c in cases]
+        chunks = [tasks[i : i + chunksize] for i in range(0, n, chunksize)]
+        it = pool.imap_unordered(call_chunk, chunks, 1)
+        for _ in range(len(chunks)):
             try:
                 # a worker that dies (killed from outside, out of memory) loses its task: never wait forever
-                case, res = it.next(timeout=(limit + 120) * max(1, chunksize))
+                results = it.next(timeout=(limit + 120) * chunksize)
             except mp.TimeoutError:
                 print(f"HARNESS-ERROR property={self.pid} part={part}: no result within the time limit "
                       f"(a worker process died or hangs)", flush=True)
                 self.close()
                 raise SystemExit(3) from None
-            st["cases"] += 1
-            self._consume(fn, mode, part, st, case, res, env)
-            if collect:
-                out.append((case, res))
+            for case, res in results:
+                st["cases"] += 1
+                self._consume(fn, mode, part, st, case, res, env)
+                if collect:
+                    out.append((case, res))
         return out
 
     def _consume(self, fn, mode, part, st, case, res, env=None):
